@@ -203,8 +203,10 @@ def run(ctx):
         "still evaluates every row numerically and draws programs only from rows that hold.",
         "qubit allocation is not modelled: carbon-carbon blocks borrow virtual qubit 0, which the oracle programs keep "
         "allocated (NV: the electron always exists)",
-        "vanilla `mov` has no operator in the executor; its meaning is C07's mov_transfers; C08 covers mov in the "
-        "instruction-list tie and in the theorem (through blocks_sound), not in the state-vector oracle",
+        "vanilla `mov` has no operator in the executor; its meaning is C07's mov_transfers (state transfer onto a fresh "
+        "target).  The state-vector oracle covers mov only in that shape (`epr_move`: target initialised before, source "
+        "re-initialised after; vanilla side = SWAP), with operands in Q, R or C bank registers; other movs are covered by "
+        "the instruction-list tie and the theorem",
         "measurement outcomes are an input (script) shared by both runs",
         "registers the original program never mentions (the borrowed scratch Q register, C15 of the appended no-op) "
         "are transpiler-owned temporaries: they are not part of the compared classical memory",
@@ -298,7 +300,9 @@ def run(ctx):
         rmeta.append(dict(prog=prog, script=script, nv=nv, status=res["status"]))
 
     for k in range(n_oracle):
-        prog, meta = nv_gen.gen_program(rng, dict(g1=g1_ok, g2=g2_ok, lreg=(k % 3 == 1), perm=(k % 3 == 2)))
+        prog, meta = nv_gen.gen_program(rng, dict(g1=g1_ok, g2=g2_ok, lreg=(k % 3 == 1), perm=(k % 3 == 2), nonq=(k % 2 == 0)))
+        if any(t[0] == "g2" and t[2][0] != "Q" for t in prog):
+            stats["gate_operands_in_non_Q_banks"] = stats.get("gate_operands_in_non_Q_banks", 0) + 1
         if meta.get("perm"):
             stats["operand_registers_permuted"] = stats.get("operand_registers_permuted", 0) + 1
         if meta.get("lreg"):
@@ -332,7 +336,7 @@ def run(ctx):
     for k in range(n_tie):
         hw = rng.random() < 0.35
         prog, meta = tie_variants(rng, impl, dict(g2=["cnot", "cphase", "mov"], load=rng.random() < 0.3,
-                                                  lreg=rng.random() < 0.3, perm=rng.random() < 0.5,
+                                                  lreg=rng.random() < 0.3, perm=rng.random() < 0.5, nonq=rng.random() < 0.5,
                                                   hw_safe=hw and rng.random() < 0.7))
         feat(prog)
         res = add_tie(prog, meta, rng.random() < 0.5, hw)
@@ -424,7 +428,7 @@ def search(ctx, impl, g1_ok, g2_ok, suspects):
             if [v for v in ctx.violations if v["key"] is None]:
                 return
     for _ in range(400):
-        prog, meta = nv_gen.gen_program(rng, dict(g1=g1_ok, g2=g2_ok, lreg=rng.random() < 0.4, perm=rng.random() < 0.6))
+        prog, meta = nv_gen.gen_program(rng, dict(g1=g1_ok, g2=g2_ok, lreg=rng.random() < 0.4, perm=rng.random() < 0.6, nonq=rng.random() < 0.6))
         if not nv_gen.sdk_shaped(prog):
             continue
         script = [rng.randint(0, 1) for _ in range(meta["script_len"] * 4 + 2)]
